@@ -72,11 +72,25 @@ impl Plan {
         (0..self.nodes.len()).filter(|&i| self.nodes[i].parent == p).collect()
     }
 
-    pub fn subtree_preorder(&self, i: usize, out: &mut Vec<usize>) {
-        out.push(i);
-        for c in self.children_of(Some(i)) {
-            self.subtree_preorder(c, out);
+    /// children lists of every node (index n = children of the DOM root), built in one pass
+    pub fn children_index(&self) -> Vec<Vec<usize>> {
+        let n = self.nodes.len();
+        let mut idx = vec![Vec::new(); n + 1];
+        for (i, node) in self.nodes.iter().enumerate() {
+            idx[node.parent.unwrap_or(n)].push(i);
         }
+        idx
+    }
+
+    pub fn subtree_preorder(&self, i: usize, out: &mut Vec<usize>) {
+        let idx = self.children_index();
+        fn go(idx: &[Vec<usize>], i: usize, out: &mut Vec<usize>) {
+            out.push(i);
+            for &c in &idx[i] {
+                go(idx, c, out);
+            }
+        }
+        go(&idx, i, out);
     }
 
     /// indices of written nodes in the order of the expected forest's pre-order
@@ -132,15 +146,16 @@ impl Plan {
         let root = dom.root_ref();
         match how {
             How::Nested => {
-                fn nested(plan: &Plan, flat: &dyn Fn(usize) -> InstanceBuilder, i: usize) -> InstanceBuilder {
+                let idx = self.children_index();
+                fn nested(idx: &[Vec<usize>], flat: &dyn Fn(usize) -> InstanceBuilder, i: usize) -> InstanceBuilder {
                     let mut b = flat(i);
-                    for c in plan.children_of(Some(i)) {
-                        b = b.with_child(nested(plan, flat, c));
+                    for &c in &idx[i] {
+                        b = b.with_child(nested(idx, flat, c));
                     }
                     b
                 }
-                for t in self.children_of(None) {
-                    let b = nested(self, &flat, t);
+                for &t in &idx[self.nodes.len()] {
+                    let b = nested(&idx, &flat, t);
                     dom.insert(root, b);
                 }
             }
@@ -255,8 +270,10 @@ pub fn expected_forest(
             },
         }
     };
+    let cidx = plan.children_index();
     fn build(
         plan: &Plan,
+        cidx: &[Vec<usize>],
         i: usize,
         prop: &dyn Fn(&PNode, &str, &PVal, &dyn Fn(&Tgt) -> String) -> Vec<(String, String)>,
         refstr: &dyn Fn(&Tgt) -> String,
@@ -272,7 +289,7 @@ pub fn expected_forest(
             class: n.class.clone(),
             name: n.name.clone(),
             props,
-            children: plan.children_of(Some(i)).into_iter().map(|c| build(plan, c, prop, refstr)).collect(),
+            children: cidx[i].iter().map(|&c| build(plan, cidx, c, prop, refstr)).collect(),
         }
     }
     match &plan.roots {
@@ -280,9 +297,9 @@ pub fn expected_forest(
             class: "DataModel".into(),
             name: "DataModel".into(),
             props: BTreeMap::new(),
-            children: plan.children_of(None).into_iter().map(|c| build(plan, c, prop, &refstr)).collect(),
+            children: cidx[plan.nodes.len()].iter().map(|&c| build(plan, &cidx, c, prop, &refstr)).collect(),
         }],
-        RootSel::Nodes(v) => v.iter().map(|&r| build(plan, r, prop, &refstr)).collect(),
+        RootSel::Nodes(v) => v.iter().map(|&r| build(plan, &cidx, r, prop, &refstr)).collect(),
     }
 }
 
